@@ -103,6 +103,18 @@ Theorem C02_refines_python_rebind_dict_partial : forall q sc ps tid pa fl st its
 Proof. exact exec_rebind_dict_refines. Qed.
 Print Assumptions C02_refines_python_rebind_dict_partial.
 
+(* rebind with several single-key paths on a list: the entries are applied one after the other from the highest index to the
+   lowest ([sort_desc], the documented rule), each as list does it (replace; at or past the end: append; insertion marker:
+   insert with list.insert's clamping; below -len: IndexError, which stops the batch and keeps the earlier writes) *)
+Theorem C02_refines_python_rebind_list_partial : forall q sc ps tid pa fl st its pvs st' out,
+  WFI st -> at_is st ps tid KList pa fl its -> clean its -> anc_clean st ps -> treats_as_sealed sc fl = false ->
+  Forall entry_ok pvs -> pvs <> [] ->
+  exec q sc st ps tid KList (snd ps) fl its (Rebind pvs) = (st', out) ->
+  WFI st' /\ wrote st ps tid pa fl st' (fst (py_lwrites (evals its) (map entry_w (sort_desc pvs)))) /\
+  out = match snd (py_lwrites (evals its) (map entry_w (sort_desc pvs))) with None => Ok RNone | Some e => Err (err_of e) end.
+Proof. exact exec_rebind_list_refines. Qed.
+Print Assumptions C02_refines_python_rebind_list_partial.
+
 (* --- C02_history: every finite history on one container ---------------------------------------------------------------------- *)
 (* lists: base catalogue and slice operations interleaved in any order; [lhist2_ok] only says that every call has plain
    arguments and is let through; [lhist2_py] is the plain list driven by the same calls *)
